@@ -48,6 +48,19 @@ func (fr *frame) pos() token.Pos {
 func (i *interpreter) stackFrom(fr *frame) []stackEntry {
 	var st []stackEntry
 	for f := fr; f != nil; f = f.caller {
+		if f != fr && f.inPanicDefers {
+			// f is running its deferred calls because of a panic: the Go run-time has not unwound
+			// the panicking frames, they are still on the stack below runtime.gopanic
+			pv, _ := f.panic.(*panicVal)
+			if pv == nil {
+				pv = f.recovered
+			}
+			if pv != nil && len(pv.stack) > 0 {
+				st = append(st, stackEntry{syn: "runtime.gopanic"})
+				st = append(st, pv.stack...)
+				return st
+			}
+		}
 		st = append(st, stackEntry{fn: f.fn, pos: f.pos()})
 	}
 	return st
